@@ -445,12 +445,13 @@ alac_encode_block (ALAC_PRIVATE *plac)
 
 	alac_encode (penc, plac->partial_block_frames, plac->buffer, plac->byte_buffer, &num_bytes) ;
 
+	/* The block buffer is free again whether or not the packet can be stored. */
+	plac->partial_block_frames = 0 ;
+
 	if (fwrite (plac->byte_buffer, 1, num_bytes, plac->enctmp) != num_bytes)
 		return 0 ;
 	if ((plac->pakt_info = alac_pakt_append (plac->pakt_info, num_bytes)) == NULL)
 		return 0 ;
-
-	plac->partial_block_frames = 0 ;
 
 	return 1 ;
 } /* alac_encode_block */
